@@ -12,7 +12,7 @@ RULE = ('E1.31: valid data packets (current and rev2 framing) and discovery page
         'previous PDU in the block, blocks ending inside a length field, wrong vectors, zero CID x DMP address '
         'type/size nibbles, increment, number of slots (0, n-1..n+2, 512-514, 0xffff), start codes, options, '
         'priorities 199-201, universes x DMP data cut at 0/1/5/6/7/8 bytes x >512 slots (clamp) x DMP PDUs ending exactly at each field boundary with consistent outer lengths after a full packet for '
-        'the same/another universe x blocks of 2-3 PDUs per layer whose last PDU claims remaining-1/remaining/+1/+40/its untruncated length/block/block+1 with V/H inheritance flags varied, after a longer datagram x 2-4 CIDs merged at one priority then a priority raise by the source tracked first/second/last, followed by datagrams from the raiser and the dropped sources (handler buffer, active priority and per-source buffers compared with the model after every datagram) x source names of LEN-2/LEN-1/LEN non-NUL bytes followed by non-zero bytes (decoded source name observed at HandlePDUData and the discovery callback) x ACN preambles with the right identifier but every combination of non-standard preamble-size / post-amble-size fields (0, 15-18, datagram length -1/0/+1, 0xffff; sums beyond the datagram) after a longer datagram x universe-discovery page histories of up to 258 datagrams driving the 8-bit page counters to 0/1/2/127/128/254/255 (all pages, shuffled, one missing/duplicated/beyond last, 1-2 CIDs) with E131Node::GetKnownControllers() compared after every datagram x E1.33 (RPT) / LLRP packets (root -> framing header -> RDM PDU) with the same '
+        'the same/another universe x blocks of 2-3 PDUs per layer whose last PDU claims remaining-1/remaining/+1/+40/its untruncated length/block/block+1 with V/H inheritance flags varied, after a longer datagram x 2-4 CIDs merged at one priority then a priority raise by the source tracked first/second/last, followed by datagrams from the raiser and the dropped sources (handler buffer, active priority and per-source buffers compared with the model after every datagram) x source names of LEN-2/LEN-1/LEN non-NUL bytes followed by non-zero bytes (decoded source name observed at HandlePDUData and the discovery callback) x histories on the long-lived inflator chain: a packet whose root/E1.31/DMP block ends in a malformed trailing PDU, then a shorter packet whose first PDU at that layer has D/V/H clear and nothing after its header / vector / length field, then a valid packet x ACN preambles with the right identifier but every combination of non-standard preamble-size / post-amble-size fields (0, 15-18, datagram length -1/0/+1, 0xffff; sums beyond the datagram) after a longer datagram x universe-discovery page histories of up to 258 datagrams driving the 8-bit page counters to 0/1/2/127/128/254/255 (all pages, shuffled, one missing/duplicated/beyond last, 1-2 CIDs) with E131Node::GetKnownControllers() compared after every datagram x E1.33 (RPT) / LLRP packets (root -> framing header -> RDM PDU) with the same '
         'length/flag/vector mutations x every truncation '
         'length 0-139 and around the end x datagrams of capacity-1/capacity/capacity+1/1600 bytes with consistent '
         'and inconsistent lengths x discovery pages with an odd payload length x 3-9 packet sequences from several '
@@ -544,6 +544,42 @@ def preambles(rng, quick):
             yield [prev, d]
 
 
+def dflag_hist(rng, quick):
+    """yield (config, [datagrams]): flag combinations the packers never produce, in histories on the long-lived
+    inflator chain: datagram 1 is a valid data packet whose root / E1.31 / DMP block ends in a malformed trailing PDU
+    (stray byte, half a length field, over-long length); datagram 2 is shorter and its first PDU at that layer has
+    D (and V / H) clear with NOTHING after the header (or after the vector / length), all outer lengths consistent;
+    then a valid packet.  The unchanged code ignores the D flag: a PDU without data has no data."""
+    tails = ([0x70], [0xf0], [0xf0, 0x00], [0x70, 0x01], [0x7f, 0xff])
+    for kind in ('data', 'rev2'):
+        for lv in ('r', 'e', 'd'):
+            for tail in (tails if not quick else rng.sample(tails, 2)):
+                seq = rng.randrange(100)
+                first = P(rng, kind=kind, uni=1, cid=cid_of(1), prio=100, seq=seq, opts=0,
+                          slots=[rng.randrange(1, 256) for _ in range(rng.choice([24, 512]))])
+                setattr(first, lv + '_more', list(tail))
+                for fl in (0x60, 0x20, 0x40, 0x00, 0x50, 0x30):
+                    for body in ('hdr', 'vec', 'none'):
+                        if quick and rng.random() < 0.5 and not (body == 'hdr' and fl in (0x60, 0x20)):
+                            continue
+                        q = P(rng, kind=kind, uni=1, cid=cid_of(1), prio=100, seq=(seq + 1) & 255, opts=0, slots=[])
+                        vec, hd = {'r': (be32(3 if kind == 'rev2' else 4), q.cid), 'e': (be32(2), q.ehdr()),
+                                   'd': ([2], [0xa1])}[lv]
+                        v2 = vec if body in ('hdr', 'vec') else []
+                        h2 = hd if body == 'hdr' else []
+                        raw = pdu(v2, h2, [], fl=0x70)
+                        raw[0] = (raw[0] & 0x0f) | fl          # the flags say what they say, the body is what it is
+                        if lv == 'd':
+                            q.dmp_pdu = lambda raw=raw: raw
+                        elif lv == 'e':
+                            q.e_pdu = lambda raw=raw: raw
+                        else:
+                            q.r_pdu = lambda raw=raw: raw
+                        last = P(rng, kind=kind, uni=1, cid=cid_of(1), prio=100, seq=(seq + 2) & 255, opts=0,
+                                 slots=[rng.randrange(1, 256) for _ in range(5)])
+                        yield '0,1:none,2:none', [hx(first.build()), hx(q.build()), hx(last.build())]
+
+
 def odd_disc(rng):
     """discovery pages whose universe list has an odd number of bytes (fixes/02)"""
     v = P(rng, kind='disc', unis=[1, 2])
@@ -603,6 +639,9 @@ def gen_cases(rng, tier):
         for cfg, dgs in overclaim(rng, quick):
             yield 'acn %s %s' % (cfg, ' '.join(dgs))
         for cfg, dgs in prio_raise(rng, quick):
+            yield 'acn %s %s' % (cfg, ' '.join(dgs))
+    for _ in range(1 if quick else 3):
+        for cfg, dgs in dflag_hist(rng, quick):
             yield 'acn %s %s' % (cfg, ' '.join(dgs))
     for _ in range(1 if quick else 4):
         for dgs in preambles(rng, quick):
